@@ -404,6 +404,12 @@ func (rl *respDeserializer) getCount(line string) (value int, valid bool) {
 	if count64, valid = rl.getCount64(line); !valid {
 		return
 	}
+	// a length or element count comes from the wire: every element (and every byte) it announces has to
+	// be in the buffer, so a count beyond what has arrived cannot be complete yet - never size anything by it
+	if int64(count64) > int64(len(rl.content)-rl.pos) {
+		valid = false
+		return
+	}
 	value = int(count64)
 	return
 }
